@@ -14,7 +14,7 @@ use std::path::Path;
 pub static SPEC: PropSpec = PropSpec {
     id: "C12",
     level: "exploration",
-    rule: "inputs: exhaustive strings up to length L over a 27-symbol alphabet covering every token class (L=3 quick, L=4 thorough, plus L<=6 over 10 lexically interesting symbols in thorough), random token soups, multiline-string torture, mutations and every-boundary prefixes of corpus files; an input is non-trivial when the lexer yields >= 2 tokens; distinct by content hash",
+    rule: "inputs: exhaustive strings up to length L over a 28-symbol alphabet covering every token class (L=3 quick, L=4 thorough, plus L<=6 over 10 lexically interesting symbols in thorough), random token soups, multiline-string torture, mutations and every-boundary prefixes of corpus files, every corpus file with one of 18 special characters (U+FEFF, U+200B, U+2028, NUL, CR, form feed, ...) before its first byte, after its last byte and after its first line; an input is non-trivial when the lexer yields >= 2 tokens; distinct by content hash",
     eval_counter: "inputs",
     assumptions: &[
         "rowan's SyntaxNode::text() is trusted to concatenate the green tree's token texts",
@@ -260,8 +260,10 @@ fn check_batch(case: &mut Case, label: &str, inputs: &[String]) {
 
 pub const ALPHABET: &[&str] = &[
     "a", "_", "1", "8", "i", "f", ".", "\"", "\\", "/", "\n", " ", "\t", "(", ")", "{", "}", ":", "=", "-", ">", "|", "&",
-    "!", "#", "\u{e9}", "\u{1F600}",
+    "!", "#", "\u{e9}", "\u{1F600}", "\u{feff}",
 ];
+/// characters editors and file systems put at the very start / end of a file or between lines
+pub const SPECIAL_CHARS: &[&str] = &["\u{feff}", "\u{fffe}", "\u{200b}", "\u{2028}", "\u{2029}", "\u{0}", "\u{1a}", "\r", "\r\n", "\u{c}", "\u{b}", "\u{a0}", "\u{85}", "#!/usr/bin/env goml\n", "\u{1}", "\u{7f}", "\u{e000}", "\u{10ffff}"];
 pub const SMALL_ALPHABET: &[&str] = &["1", "i", "8", ".", "f", "\"", "\\", "\n", "/", "a"];
 
 pub const TOKEN_POOL: &[&str] = &[
@@ -391,7 +393,7 @@ fn run(ctx: &mut Ctx) {
                 batch_no += 1;
                 if ctx.mine(batch_no) {
                     let b = std::mem::take(&mut batch);
-                    ctx.case(&format!("exh27/len{}/batch{}", len, batch_no), |c| check_batch(c, "exhaustive27", &b));
+                    ctx.case(&format!("exh28/len{}/batch{}", len, batch_no), |c| check_batch(c, "exhaustive28", &b));
                 } else {
                     batch.clear();
                 }
@@ -400,12 +402,12 @@ fn run(ctx: &mut Ctx) {
         batch_no += 1;
         if ctx.mine(batch_no) && !batch.is_empty() {
             let b = std::mem::take(&mut batch);
-            ctx.case(&format!("exh27/len{}/tail", len), |c| check_batch(c, "exhaustive27", &b));
+            ctx.case(&format!("exh28/len{}/tail", len), |c| check_batch(c, "exhaustive28", &b));
         }
         batch.clear();
     }
     if ctx.shard == 0 {
-        ctx.add_stat("exhaustive27_max_len", max_len as u64);
+        ctx.add_stat("exhaustive28_max_len", max_len as u64);
     }
     if tier == crate::runner::Tier::Thorough {
         for len in 5..=6 {
@@ -465,6 +467,18 @@ fn run(ctx: &mut Ctx) {
             continue;
         }
         ctx.case(&format!("corpus/{}", name), |c| check_batch(c, "corpus", &[text.clone()]));
+        // the file with one special character (byte-order mark, zero-width / line / paragraph separators, NUL,
+        // CR, form feed, ...) before its first byte, after its last byte, and after its first line
+        ctx.case(&format!("corpus-special/{}", name), |c| {
+            let mut b = Vec::new();
+            let first_nl = text.find('\n').map(|k| k + 1).unwrap_or(text.len());
+            for sp in SPECIAL_CHARS {
+                b.push(format!("{}{}", sp, text));
+                b.push(format!("{}{}", text, sp));
+                b.push(format!("{}{}{}", &text[..first_nl], sp, &text[first_nl..]));
+            }
+            check_batch(c, "special_chars", &b)
+        });
         // prefixes at token boundaries
         let toks = lexer::lex(text);
         let mut cuts: Vec<usize> = toks.iter().map(|t| usize::from(t.range.end())).collect();
